@@ -46,12 +46,18 @@ CHECKS = {
             "frame within the bound the logged traces are exactly those of the calls sampled at their first call event, undistorted, with no residue.",
             TRUST + "random.randrange is a stub constrained only by its contract; uniformity is trusted for the statistical reading.", "DESIGN.md#C18"),
     "C03": (True, "fault_enumeration",
-            "symbolic fault schedules (one solver bool per fault site) through the real CallTracer.__call__ and trace_calls (CrossHair+z3)",
+            "symbolic fault schedules (one solver bool per fault site) and tripwire-object selectors with k symbolic through the real CallTracer.__call__, get_type, get_func and trace_calls (CrossHair+z3); CPython's isinstance modelled by a contract validated natively every run",
             "Claimed in part. Every combination of injected faults (type collection on arguments / return values, objects whose inspection "
             "raises, function lookup, logger.log) x 6 exception classes x 3 event scripts is decided symbolically: nothing escapes __call__. "
-            "All 2^3 exit scenarios of trace_calls (and of monkeytype.trace(config)) restore the previous profiler before flushing exactly once.",
-            TRUST + "The clauses 'same results with and without tracing' and 'never executes user-defined code' are NOT claimed: the engine "
-            "replaces the very builtins whose hook invocations would have to be observed.", "DESIGN.md#C03"),
+            "All 2^3 exit scenarios of trace_calls (and of monkeytype.trace(config)) restore the previous profiler before flushing exactly once. "
+            "Hook freedom: for 12 kinds of tripwire objects (attribute hooks, __class__ properties, side-effecting descriptors, journaling "
+            "hash/eq/bool/repr/len, list/tuple/set/dict/defaultdict subclasses overriding the container protocol, metaclass hooks) at 16 positions "
+            "(argument, nested in every builtin container incl. dict key, return, yield, receiver, module global, global named like the function, "
+            "caller local, first argument of an unresolvable function) and every k, the journal of user-defined code run by the tracer is empty; "
+            "every explored path is re-executed natively.",
+            TRUST + "The clause 'same results with and without tracing' (a two-run whole-program differential) is NOT claimed. The engine's own "
+            "probes of objects (__class__ reads by its internal isinstance checks, __ch_* lookups) are filtered from the journal by call stack; "
+            "MonkeyType's isinstance calls run through a Python transcription of CPython's object_isinstance, compared with the builtin on every run.", "DESIGN.md#C03"),
     "C17": (True, "model_checking",
             "symbolic execution (CrossHair+z3): filter verdict symbolic bool, func.__module__ symbolic str, default_code_filter on tape-composed paths vs an independent path predicate",
             "Claimed in part. The custom-filter gate and the __main__ exclusion are decided for every verdict / every module-name string "
